@@ -418,6 +418,11 @@ def check(prog, run):
                            "keys and pending results are not appended together on every iteration: values would be zipped with the wrong keys")
 
     check_flatten_before_finalise(prog, run)
+    from . import c09
+    c09.check_deferred_conservation(prog, run, "R11")
+    from .. import sentinel
+    sentinel.check(prog, run, "R10", ["py_gql.execution"], 6,
+                   "an unexpected IndexError/KeyError from a resolver would be lost under one executor/runtime and surface under the others")
 
 
 def _else_names(f):
